@@ -8,6 +8,8 @@ using S = bspline::support::Support<double>;
 using G = bspline::support::Grid<double>;
 #define W extern "C" __attribute__((noinline))
 
+// a freshly constructed 2-point grid: the harness learns from it the initial bytes of Grid members it does not know
+W void w_mk_grid2(void *mem) { new (mem) G(std::vector<double>{0.0, 1.0}); }
 W int w_iifa(const S *s, size_t idx, size_t *out) { auto r = s->intervalIndexFromAbsolute(idx); if (r) { *out = *r; return 1; } return 0; }
 W int w_rfa(const S *s, size_t idx, size_t *out) { auto r = s->relativeFromAbsolute(idx); if (r) { *out = *r; return 1; } return 0; }
 W size_t w_afr(const S *s, size_t idx) { return s->absoluteFromRelative(idx); }
